@@ -460,6 +460,12 @@ namespace via
       bool connect(ASIO::io_context& io_context,
                     const char* host_name, const char* port_name)
       {
+        // Note: the connection may have been used before, so forget whatever
+        // the previous session left behind
+        transmitting_ = false;
+        disconnect_pending_ = false;
+        shutdown_sent_ = false;
+
         weak_pointer ptr(weak_from_this());
         return SocketAdaptor::connect(io_context, host_name, port_name,
           [ptr](ASIO_ERROR_CODE const& error, ASIO::ip::tcp::endpoint const& endpoint)
